@@ -65,7 +65,64 @@ Theorem C16_heap_fix :
 Proof. exact (fun A less SW => h_fix_spec less SW). Qed.
 Print Assumptions C16_heap_fix.
 
-(** (3) Within one leaf queue, with unlimited depth: in every state reachable by any
+(** (3) The bounded PriorityQueue, for any strict weak order.
+    indexOfLast() of a non-empty heap is a valid index, and no element of the heap
+    is ordered after the item it designates (it scans the leaves only; every
+    element of a heap has a leaf below it). *)
+Theorem C16_index_of_last_is_a_maximum :
+  forall (A : Type) (less : A -> A -> bool), strict_weak less ->
+  forall l, heap_ok less l -> l <> [] ->
+    (index_of_last less l < length l)%nat
+    /\ (forall m, nth_error l (index_of_last less l) = Some m -> forall y, In y l -> less m y = false).
+Proof. exact (fun A less SW => index_of_last_spec less SW). Qed.
+Print Assumptions C16_index_of_last_is_a_maximum.
+
+(** PriorityQueue.Push with any size bound [d] never fails and keeps the heap
+    invariant; without a bound or below it exactly the pushed element is added; at
+    the bound exactly one element [y] is dropped, and nothing that was in the queue,
+    nor the pushed element, is ordered after [y]. *)
+Theorem C16_finite_push_keeps_heap_drops_a_maximum :
+  forall (A : Type) (less : A -> A -> bool), strict_weak less ->
+  forall d l x, heap_ok less l ->
+    exists l', pq_push less d l x = Ok l' /\ heap_ok less l'
+               /\ ((d = -1 \/ Z.of_nat (length l) < d) -> Permutation (x :: l) l')
+               /\ ((d <> -1 /\ d <= Z.of_nat (length l)) ->
+                   exists y, Permutation (x :: l) (y :: l') /\ forall z, In z (x :: l) -> less y z = false).
+Proof. exact (fun A less SW => pq_push_spec less SW). Qed.
+Print Assumptions C16_finite_push_keeps_heap_drops_a_maximum.
+
+(** "Keeps the d best": after any sequence of pushes [xs] into an empty queue of
+    depth [d] (-1 = unlimited), for an order that is strict weak and in which no
+    two different pushed elements tie, the queue holds, as a multiset, exactly the
+    [d] smallest elements of [xs] ([d_best]: the first [d] elements of the sorted
+    list of everything pushed). *)
+Theorem C16_bounded_queue_keeps_d_best :
+  forall (A : Type) (less : A -> A -> bool), strict_weak less ->
+  forall d xs, -1 <= d -> total_on less xs ->
+    exists l, pq_push_all less d [] xs = Ok l /\ heap_ok less l /\ Permutation l (d_best less d xs).
+Proof. exact (fun A less SW => pq_keeps_d_best less SW). Qed.
+Print Assumptions C16_bounded_queue_keeps_d_best.
+
+(** "b kept => a kept": if the queue still holds [b], it holds every pushed [a]
+    that is ordered before [b]. *)
+Theorem C16_bounded_queue_kept_is_downward_closed :
+  forall (A : Type) (less : A -> A -> bool), strict_weak less ->
+  forall d xs l a b, -1 <= d -> total_on less xs ->
+    pq_push_all less d [] xs = Ok l -> In a xs -> In b l -> less a b = true -> In a l.
+Proof. exact (fun A less SW => pq_kept_downward less SW). Qed.
+Print Assumptions C16_bounded_queue_kept_is_downward_closed.
+
+(** Both, for a leaf queue of the scheduler: jobs with distinct UIDs never tie, so
+    which jobs a leaf queue of depth [d] keeps is determined by the comparator chain
+    alone (not by the order in which InitializeWithJobs visits Go's map). *)
+Theorem C16_leaf_queue_keeps_d_best :
+  forall d xs, -1 <= d -> NoDup (map j_uid xs) ->
+    exists l, pq_push_all job_less d [] xs = Ok l /\ heap_ok job_less l /\ Permutation l (d_best job_less d xs)
+              /\ (forall a b, In a xs -> In b l -> job_less a b = true -> In a l).
+Proof. exact leaf_queue_keeps_d_best_proof. Qed.
+Print Assumptions C16_leaf_queue_keeps_d_best.
+
+(** (4) Within one leaf queue, with unlimited depth: in every state reachable by any
     interleaving of PushJob (any queue, re-pushes included) and PopNextJob, for any
     queue hierarchy and any queue order function, a pop returns a least job of the
     leaf it pops (the least one when UIDs are distinct) and removes exactly that
@@ -86,77 +143,89 @@ Theorem C16_pop_order_within_leaf :
 Proof. exact pop_order_within_leaf_proof. Qed.
 Print Assumptions C16_pop_order_within_leaf.
 
-(** (4) The property, decision level, unlimited depth. For every queue hierarchy,
-    queue order function, set of pending jobs in any initial order, abstract
-    capacity that only shrinks, and placement oracle: if [a] and [b] are jobs of
-    one leaf queue for which "fits" is the same monotone predicate of the remaining
+(** PushJob with any depth: the leaf invariant is kept; below the bound exactly the
+    pushed job is added to its leaf; at the bound one job is dropped from that leaf
+    and no job of the leaf, nor the pushed one, is ordered after it. *)
+Theorem C16_push_job_any_depth :
+  forall (qs : list qinfo) (qord : Z -> Z -> option job -> option job -> bool) depth st j st',
+    leaf_inv st -> push_job qs qord depth st j = Ok st' ->
+    (st' = st /\ exists qi, lookup_q qs (j_queue j) = Some qi /\ qi_leaf qi = false)
+    \/ (leaf_inv st'
+        /\ (forall q', q' <> j_queue j -> leaf_items st' q' = leaf_items st q')
+        /\ ((depth = -1 \/ Z.of_nat (length (leaf_items st (j_queue j))) < depth) ->
+            Permutation (j :: leaf_items st (j_queue j)) (leaf_items st' (j_queue j)))
+        /\ ((depth <> -1 /\ depth <= Z.of_nat (length (leaf_items st (j_queue j)))) ->
+            exists y, Permutation (j :: leaf_items st (j_queue j)) (y :: leaf_items st' (j_queue j))
+                      /\ forall z, In z (j :: leaf_items st (j_queue j)) -> job_less y z = false)).
+Proof. exact push_job_contents_d. Qed.
+Print Assumptions C16_push_job_any_depth.
+
+(** (5) The property, decision level, for every MaxJobsQueueDepth (-1 = unlimited).
+    For every queue hierarchy, queue order function, set of pending jobs (distinct
+    UIDs) in any initial order, abstract capacity that only shrinks, and placement
+    oracle that pushes back the job it was given (same queue, same UID; priority
+    and elastic state may change): if [a] and [b] are pending jobs of one leaf
+    queue for which "fits" is the same monotone predicate of the remaining
     capacity, and the chain orders [a] before [b], then a completed allocate action
-    that places [b] places [a]. This is [C16_finite_depth] restricted to depth -1. *)
-Theorem C16_finite_depth_partial :
-  forall (qs : list qinfo) (qord : Z -> Z -> option job -> option job -> bool)
-         (C : Type) (attempt : job -> C -> option (C * option job)) (cle : C -> C -> Prop)
-         (a b : job) (fuel : nat) (jobs : list job) (c0 : C) (out : list (job * bool)),
-    (forall c, cle c c) ->
-    (forall c1 c2 c3, cle c1 c2 -> cle c2 c3 -> cle c1 c3) ->
-    (forall j c c' r, attempt j c = Some (c', r) -> cle c' c) ->
-    (forall c c', cle c' c -> fits attempt a c' = true -> fits attempt a c = true) ->
-    (forall c, fits attempt a c = fits attempt b c) ->
-    j_queue a = j_queue b ->
-    job_less a b = true ->
-    In a jobs -> queue_ok qs (j_queue a) = true ->
-    allocate qs qord (-1) attempt fuel jobs c0 = Ok out ->
-    In (b, true) out -> In (a, true) out.
+    that places [b] places [a]. (A leaf queue that is full keeps [a] whenever it
+    keeps [b]; a re-push refills the slot of the job just popped, so nothing is
+    dropped after InitializeWithJobs.) *)
+Theorem C16_finite_depth : C16_finite_depth_stmt.
 Proof. exact C16_decision_proof. Qed.
-Print Assumptions C16_finite_depth_partial.
+Print Assumptions C16_finite_depth.
 
-(** (5) The same statement for every MaxJobsQueueDepth ([C16_finite_depth] in
-    Model/JobOrderSpec.v) is false in the faithful model: with depth 2 and jobs of
-    priority 3, 1, 2 arriving in this order in one leaf queue, everything fitting,
-    the priority-2 job is dropped by [heap.Remove(q, 2)] and the priority-1 job is
-    placed. *)
-Theorem C16_finite_depth_refuted :
-  (exists depth, 0 <= depth /\ ~ C16_decision_stmt depth) /\ ~ C16_finite_depth.
-Proof.
-  split.
-  - exists 2. split; [discriminate|exact finite_depth_refuted_proof].
-  - intros H. apply finite_depth_refuted_proof. apply H. discriminate.
-Qed.
-Print Assumptions C16_finite_depth_refuted.
+(** With unlimited depth the statement holds for any oracle (whatever it pushes
+    back) and [b] need not be one of the pending jobs. *)
+Theorem C16_unlimited_depth_any_repush : C16_decision_stmt_any_repush (-1).
+Proof. exact C16_decision_any_repush_unlimited_proof. Qed.
+Print Assumptions C16_unlimited_depth_any_repush.
 
-(** The finite queue still is a valid heap and loses exactly one element per
-    overflowing push — only the choice of that element is wrong: *)
-Theorem C16_finite_push_keeps_heap :
-  forall (A : Type) (less : A -> A -> bool), strict_weak less ->
-  forall d l x, heap_ok less l -> 0 <= d ->
-    exists l', pq_push less d l x = Ok l' /\ heap_ok less l'
-               /\ (Z.of_nat (length l) < d -> Permutation (x :: l) l')
-               /\ (d <= Z.of_nat (length l) -> exists y, Permutation (x :: l) (y :: l')).
-Proof. exact (fun A less SW => pq_push_finite_spec less SW). Qed.
-Print Assumptions C16_finite_push_keeps_heap.
+(** With a finite depth the hypothesis on the oracle is needed (this is about the
+    oracle, not about the code: allocate pushes back the very *PodGroupInfo it
+    popped): depth 1, pending priority 2 and priority 3; the oracle answers the
+    priority-3 job by pushing back a foreign priority-1 job, which is placed while
+    the pending priority-2 job, dropped by the full queue, is not. *)
+Theorem C16_finite_depth_needs_repush_of_popped_job :
+  ~ C16_decision_stmt_any_repush 1.
+Proof. exact any_repush_refuted_proof. Qed.
+Print Assumptions C16_finite_depth_needs_repush_of_popped_job.
 
-Theorem C16_finite_queue_drops_a_better_job :
-  exists l, (l1 <- pq_push job_less 2 [] w_top ;; l2 <- pq_push job_less 2 l1 w_b ;; pq_push job_less 2 l2 w_a) = Ok l
-            /\ ~ In w_a l /\ In w_b l /\ job_less w_a w_b = true
-            /\ ideal_push job_less 2 (ideal_push job_less 2 (ideal_push job_less 2 [] w_top) w_b) w_a = [w_top; w_a].
-Proof.
-  destruct pq_finite_drops_non_worst as (l & H1 & H2 & H3 & H4).
-  exists l. repeat split; auto.
-Qed.
-Print Assumptions C16_finite_queue_drops_a_better_job.
+(** (6) Documentation of the defect repaired by commit 4521da5. [pq_push_v0] is
+    PriorityQueue.Push as it was (heap.Remove(q, maxQueueSize)): with depth 2 and
+    jobs of priority 3, 1, 2 pushed in this order it drops the priority-2 job and
+    keeps the priority-1 job, which the chain orders after it; [pq_push] on the same
+    pushes keeps the two best. *)
+Theorem C16_finite_depth_v0_refuted :
+  (l1 <- pq_push_v0 job_less 2 [] w_top ;; l2 <- pq_push_v0 job_less 2 l1 w_b ;; pq_push_v0 job_less 2 l2 w_a)
+  = Ok [w_top; w_b]
+  /\ job_less w_a w_b = true
+  /\ pq_push_all job_less 2 [] [w_top; w_b; w_a] = Ok [w_top; w_a]
+  /\ d_best job_less 2 [w_top; w_b; w_a] = [w_top; w_a].
+Proof. exact pq_v0_drops_non_worst. Qed.
+Print Assumptions C16_finite_depth_v0_refuted.
 
-(** Non-vacuity: a two-level hierarchy with two leaf queues, three jobs and a
-    capacity counter meets every hypothesis of (4); with capacity 3 everything is
-    placed, with capacity 1 only the first job of the comparator order is. *)
+(** Non-vacuity: a two-level hierarchy with two leaf queues, three pending jobs, a
+    capacity counter and an oracle that pushes every fresh job back once meet every
+    hypothesis of (5); with capacity 9 everything is placed (unlimited depth) or
+    everything the depth-1 queues kept; with capacity 1 only the first job of the
+    comparator order is. *)
 Theorem C16_nonvacuous :
   (forall c, Z.le c c)
   /\ (forall j c c' r, ex_attempt j c = Some (c', r) -> c' <= c)
   /\ (forall c c', c' <= c -> fits ex_attempt ex_a c' = true -> fits ex_attempt ex_a c = true)
   /\ (forall c, fits ex_attempt ex_a c = fits ex_attempt ex_b c)
+  /\ repush_same_job ex_attempt
   /\ j_queue ex_a = j_queue ex_b /\ job_less ex_a ex_b = true
+  /\ NoDup (map j_uid [ex_b; ex_c; ex_a])
   /\ queue_ok ex_qs (j_queue ex_a) = true
-  /\ allocate ex_qs ex_qord (-1) ex_attempt 10 [ex_b; ex_c; ex_a] 3
-     = Ok [(ex_a, true); (ex_b, true); (ex_c, true)]
-  /\ allocate ex_qs ex_qord (-1) ex_attempt 10 [ex_b; ex_c; ex_a] 1
-     = Ok [(ex_a, true); (ex_b, false); (ex_c, false)].
+  /\ allocate ex_qs ex_qord (-1) ex_attempt 20 [ex_b; ex_c; ex_a] 9
+     = Ok [(ex_a, true); (progressed ex_a, true); (ex_b, true); (progressed ex_b, true);
+           (ex_c, true); (progressed ex_c, true)]
+  /\ allocate ex_qs ex_qord (-1) ex_attempt 20 [ex_b; ex_c; ex_a] 1
+     = Ok [(ex_a, true); (progressed ex_a, false); (ex_b, false); (ex_c, false)]
+  /\ allocate ex_qs ex_qord 1 ex_attempt 20 [ex_b; ex_c; ex_a] 9
+     = Ok [(ex_a, true); (progressed ex_a, true); (ex_c, true); (progressed ex_c, true)]
+  /\ allocate ex_qs ex_qord 1 ex_attempt 20 [ex_b; ex_c; ex_a] 1
+     = Ok [(ex_a, true); (progressed ex_a, false); (ex_c, false)].
 Proof. exact nonvacuous_proof. Qed.
 Print Assumptions C16_nonvacuous.
